@@ -408,7 +408,7 @@ func c11Shrink(raw json.RawMessage) []json.RawMessage {
 func init() {
 	Register(&Check{
 		ID: "C11", Level: "exploration", Race: true, Isolation: 40,
-		QuickRuns: 2500, ThoroughRuns: 80000,
+		QuickRuns: 5000, ThoroughRuns: 80000,
 		Gen: c11GenMode("c11"), Exec: c11Exec, Shrink: c11Shrink,
 		Rule: "one case = 2-4 goroutines, each building its own VM (own flags, error language, seeded or unseeded, a third of them with a parse budget of 3-600 expressions so that parses are abandoned at arbitrary depth) and running 2-5 generated programs, interleaved by the seeded scheduler (uniform / PCT-like / run-to-conflict) at every VM instruction, every die, and around the package-level language write/read, in a -race build whose scheduler hand-off is invisible to the race detector. Oracles: zero race reports with a dicescript frame; every seeded task's outcomes (value, error text, detail, matched/rest, op count, generator state, variables) equal its isolated run; error texts in the task's own language. distinct = distinct (program texts, context-switch sequence); non-trivial = at least 2 context switches",
 		Real: []string{"dicescript package under -race with tag verif; goroutines are real"},
@@ -417,7 +417,7 @@ func init() {
 	})
 	Register(&Check{
 		ID: "C19", Level: "exploration", Race: true, Isolation: 40,
-		QuickRuns: 2500, ThoroughRuns: 80000,
+		QuickRuns: 5000, ThoroughRuns: 80000,
 		Gen: c11GenMode("c19"), Exec: c11Exec, Shrink: c11Shrink,
 		Rule: "a quarter of the tasks first restore variables from a snapshot whose function / computed bodies do not parse and may switch their error language between evaluations (the text must follow the language in force at that command). One case = 2-4 goroutines with error languages 0/1/2 (a third of them with a parse budget of 3-600 expressions: parses abandoned at arbitrary depth) evaluating mostly rejected inputs under the seeded scheduler, with preemption points between the package-level language write (Parse) and its read (error formatter). Oracles: each syntax-error text is purely in its VM's language and equals the text the same input gives alone; line/column/quoted line/caret arithmetic is monitored on the rejected inputs that occur. distinct = distinct (input texts, context-switch sequence); non-trivial = at least 2 context switches",
 		Real: []string{"dicescript parser and error formatter under -race with tag verif"},
